@@ -22,6 +22,21 @@ import (
 
 const GolibPath = "github.com/welllog/golib/"
 
+// InGolib reports whether a stack trace has a frame in golib code: by import
+// path, or (closures of golib iterators get inlined into the harness and only
+// show their file) by the source directory the check was built from.
+func InGolib(stack string) bool {
+	if strings.Contains(stack, GolibPath) {
+		return true
+	}
+	for _, d := range strings.Split(os.Getenv("VERIF_GOLIB_DIRS"), ":") {
+		if d != "" && strings.Contains(stack, d+"/") {
+			return true
+		}
+	}
+	return false
+}
+
 const distinctCap = 1 << 21
 
 // Exit codes.
@@ -302,7 +317,7 @@ func (c *Case) Guard(name string, fn func()) (ok bool) {
 			if strings.Contains(fmt.Sprint(p), "range function continued iteration") {
 				// the Go runtime caught an iterator that kept calling yield after it returned false
 				c.Failf("iterator-ignores-break/"+name, "%s: iterator continued after the loop body asked it to stop (%v)", name, p)
-			} else if strings.Contains(st, GolibPath) {
+			} else if InGolib(st) {
 				c.Failf("panic/"+name, "%s panicked: %v\n%s", name, p, trimStack(st))
 			} else {
 				c.r.HarnessFailure(fmt.Sprintf("%s[%d] %s: harness panic: %v\n%s", c.Engine, c.Index, name, p, trimStack(st)))
@@ -361,7 +376,7 @@ func (r *Run) runOne(engine string, idx int, logging bool, fn func(*Case)) *Case
 		defer func() {
 			if p := recover(); p != nil {
 				st := string(debug.Stack())
-				if strings.Contains(st, GolibPath) {
+				if InGolib(st) {
 					c.Failf("panic/escaped", "unguarded panic: %v\n%s", p, trimStack(st))
 				} else {
 					r.HarnessFailure(fmt.Sprintf("%s[%d]: harness panic: %v\n%s", engine, idx, p, trimStack(st)))
@@ -716,7 +731,7 @@ func (r *Run) collectChild(engine, spec, part, prog, outp, racep string, runErr 
 			tail = tail[:6000]
 		}
 		switch {
-		case strings.Contains(so, GolibPath) && (strings.Contains(so, "fatal error:") || strings.Contains(so, "panic:") || strings.Contains(so, "checkptr")):
+		case InGolib(so) && (strings.Contains(so, "fatal error:") || strings.Contains(so, "panic:") || strings.Contains(so, "checkptr")):
 			r.mu.Lock()
 			r.nviol++
 			r.violations = append(r.violations, Violation{Engine: engine, Index: idx, Sig: "fatal/" + fatalKind(so),
